@@ -11,6 +11,10 @@ here (trusted, trivial) checks the representation invariant and compares every t
 Because every valid state x every operation x every operand is covered and the post-state is again a valid state over
 at most N+1 nodes, the invariant holds after edit histories of any length that stay within N nodes.
 
+Copies are also PRE-STATES: "original forest + a copy / unpickled copy of any subtree" followed by one operation or
+query on the copy (copy_then_edit_*, core_copy_then_edit), so bookkeeping that a copy fails to rebuild shows up even
+if the fresh copy looks right; both trees are checked afterwards.
+
 Documented preconditions only: ``add``/``insert``/``setChildren`` take parentless objects that do not contain the
 target (the API does not re-parent), ``remove`` takes an actual child.  Raw list methods ``append``/``extend`` are out
 of scope.  Apart from ``generationNum`` (an unbounded symbolic Int), insert indices and sort keys, the solver's role
@@ -612,6 +616,31 @@ def check_copy(ctx, orig, cp, tag):
                   if d.spatialLocator.grid is not None))
 
 
+def copy_of(orig, how):
+    return copy.deepcopy(orig) if how == "deepcopy" else pickle.loads(pickle.dumps(orig))
+
+
+def graft_copy(ctx, F, r, cp, tag):
+    """Extend the model F by the nodes of cp, a copy of the subtree of node r.  The model of the copy is the model of
+    that subtree, as a parentless root (nothing is read from the copy except its walk, whose shape is checked against
+    the original's).  Returns {index of an original: index of its copy}, or None if the shape is already wrong."""
+    ok = shape(cp) == shape(F.objs[r])
+    ctx.check(tag + ": the copy has the shape of the original subtree", ok)
+    sub, nodes = F.subtree(r), [cp] + walk_pre(cp)
+    if not ok or len(sub) != len(nodes):
+        return None
+    m = {}
+    for s, x in zip(sub, nodes):
+        m[s] = F.new(x)
+    for s in sub[1:]:
+        F.attach(m[F.par[s]], m[s])
+    for s, i in m.items():
+        if hasattr(F, "flags"):
+            F.flags[id(F.objs[i])] = F.flags[id(F.objs[s])]
+            F.types[id(F.objs[i])] = F.types[id(F.objs[s])]
+    return m
+
+
 @harness("C01", bounds="every forest on N=4 (thorough 5) generic Composites with grids x subtree root; copy.deepcopy "
                        "and pickle round trip; child locations carry an unbounded symbolic Int index", stubs=STUBS,
          max_paths=20000, instances={"quick": [dict(N=NQ, how="deepcopy"), dict(N=NQ, how="pickle")],
@@ -623,18 +652,168 @@ def copy_subtree_generic(ctx, N, how):
     F = build_forest(P, N, locKeys=keys)
     r = int(rS)
     orig = F.objs[r]
-    cp = copy.deepcopy(orig) if how == "deepcopy" else pickle.loads(pickle.dumps(orig))
+    cp = copy_of(orig, how)
     check_copy(ctx, orig, cp, how)
     for x, y in zip(walk_pre(cp), walk_pre(orig)):
         w = y.spatialLocator.k
         if ctx.canary:
             w = w + ITE(AND(w == 99, rS == 0), 1, 0)
         ctx.check_eq("location index carried over", x.spatialLocator.k, w)
-    # the original is untouched
-    check_forest(ctx, F, "original after " + how)
+    # the original is untouched, and the copy answers every membership / index / len / children query like an original
+    # of that shape would (no answer may come from the original's objects)
+    graft_copy(ctx, F, r, cp, how)
+    check_forest(ctx, F, "original and copy after " + how)
     ctx.check("original locations still live in the original grids",
               all(F.objs[i].spatialLocator.grid is F.objs[F.par[i]].spatialGrid for i in range(N) if F.par[i] is not None))
     check_deep(ctx, cp, "copy")
+
+
+# ---------------------------------------------------------------------------
+# (7) histories that continue on a copy: copy / unpickle any subtree, then one edit step ON THE COPY
+#
+# A copy must not only look right, it must BEHAVE like an original of that shape: whatever bookkeeping the mutators
+# and the membership test rely on has to be rebuilt by the copy / unpickle step.  The pre-state of the step is
+# "original forest + a copy of the subtree below r" (both in the model); the operation is applied to a node of the
+# copy; the obligations are the ones of the plain edit steps, over ALL objects (so the original is checked untouched).
+
+
+def _one_of(xS, values):
+    return OR(*[xS == v for v in values]) if values else False
+
+
+COPY_EDIT_Q = [dict(op="add", N=NQ), dict(op="insert", N=3), dict(op="remove", N=NQ), dict(op="removeAll", N=NQ),
+               dict(op="adopt", N=NQ), dict(op="setChildren", N=3)]
+COPY_EDIT_T = [dict(op="add", N=NT), dict(op="insert", N=NQ), dict(op="remove", N=NT), dict(op="removeAll", N=NT),
+               dict(op="adopt", N=NT), dict(op="setChildren", N=NQ)]
+
+
+@harness("C01", bounds="every forest on N generic Composites (N=4 for add/remove/removeAll/adopt, 3 for insert/"
+                       "setChildren; thorough 5 / 4) x copied subtree root r x deepcopy / pickle round trip, then ONE "
+                       "operation on a symbolically chosen node t of the COPY: add / insert (operands: every original "
+                       "root with its subtree, a fresh node -- accepted; every existing child of t -- must be refused; "
+                       "insert index symbolic in [-(len+1), len+1]) / remove of any non-root node of the copy from its "
+                       "parent / removeAll / adopt (a child is removed from its ORIGINAL parent and added to t) / "
+                       "setChildren (ordered selections of <= 3 of children, original roots, fresh)",
+         stubs=STUBS, max_paths=40000,
+         instances={"quick": [dict(d, how="deepcopy+pickle") for d in COPY_EDIT_Q],
+                    "thorough": [dict(d, how="deepcopy+pickle") for d in COPY_EDIT_T]})
+def copy_then_edit_generic(ctx, op, N, how):
+    P = declare_forest(ctx, N)
+    rS = ctx.int("r", 0, N - 1)            # root of the copied subtree
+    tS = ctx.int("t", 0, N - 1)            # target: position in the copy's pre-order walk
+    oS = ctx.int("o", 0, 2 * N)            # operand: index of an original (< N), of a node of the copy, or the fresh node
+    kS = ctx.int("k", -(N + 1), N + 1) if op == "insert" else None
+    memo = {}
+    for h in how.split("+"):               # the same state and operands (one path), once per way of copying, each on a
+        _copy_then_edit_generic(ctx, P, rS, tS, oS, kS, memo, op, N, h)      # forest of its own
+
+
+def _copy_then_edit_generic(ctx, P, rS, tS, oS, kS, memo, op, N, how):
+    F = build_forest(P, N)
+    r = int(rS)
+    cp = copy_of(F.objs[r], how)
+    m = graft_copy(ctx, F, r, cp, how)
+    if m is None:
+        return
+    nc = len(m)
+    f = fresh_node(F)                      # index N + nc
+    objs = F.objs
+    ctx.assume(tS < (1 if op == "remove" else nc))      # remove: the operand determines the target
+    t = N + int(tS)
+    kids = list(F.kids[t])
+    n = len(kids)
+    before = [list(k) for k in F.kids]
+    gone = []
+    rare = _canary_state(ctx, P, [rS == 0, tS == 0])
+    if op in ("add", "insert"):
+        ctx.assume(_one_of(oS, kids + [i for i in range(N) if F.par[i] is None] + [f]))
+        o = int(oS)
+        if op == "insert":
+            ctx.assume(AND(kS >= -(n + 1), kS <= n + 1))
+        if o in kids:
+            refused = False
+            try:
+                if op == "add":
+                    objs[t].add(objs[o])
+                else:
+                    objs[t].insert(int(kS), objs[o])
+            except RuntimeError:
+                refused = True
+            ctx.check("on the copy: adding an existing child is refused", refused)
+        else:
+            if op == "add":
+                objs[t].add(objs[o])
+                F.attach(t, o)
+                wantPos = n
+            else:
+                k = int(kS)
+                objs[t].insert(k, objs[o])
+                wantPos = ITE(kS >= 0, MIN(kS, n), MAX(0, n + kS))
+                F.attach(t, o, k if 0 <= k <= n else (n if k > n else max(0, n + k)))
+            if ctx.canary:
+                wantPos = wantPos + ITE(AND(rare, oS == f), 1, 0)
+            ctx.check_eq("on the copy: new child sits at the requested position", objs[t].index(objs[o]), wantPos)
+            ctx.check("on the copy: the other children keep their relative order",
+                      [c for c in F.kids[t] if c != o] == before[t])
+    elif op == "adopt":
+        # a child of an ORIGINAL parent is taken out (documented remove) and given to a node of the copy: accepted
+        ctx.assume(_one_of(oS, [i for i in range(N) if F.par[i] is not None]))
+        o = int(oS)
+        objs[F.par[o]].remove(objs[o])
+        F.detach(o)
+        objs[t].add(objs[o])
+        F.attach(t, o)
+        ok = objs[t][n] is objs[o] and objs[o].parent is objs[t]
+        if ctx.canary:
+            ok = AND(ok, NOT(AND(rare, oS == N - 1)))
+        ctx.check("on the copy: an object taken out of the original is accepted and is the last child", ok)
+    else:
+        if op == "remove":
+            ctx.assume(_one_of(oS, [i for i in range(N + 1, N + nc)]))     # any node of the copy but its root
+            c = int(oS)
+            t = F.par[c]
+            gone = [c]
+            bad = AND(_canary_state(ctx, P, [rS == 0]), oS == N + 1)
+        elif op == "removeAll":
+            gone = list(kids)
+            bad = rare
+        else:
+            cands = kids + [i for i in range(N) if F.par[i] is None] + [f]
+            if "items" not in memo:        # node numbering is the same for every way of copying
+                memo["items"] = ctx.choice("items", _sublists(cands, 3))
+            items = memo["items"]
+            gone = [c for c in kids if c not in items]
+            bad = rare
+        locBefore = {g: (objs[g].spatialLocator.i, objs[g].spatialLocator.j, objs[g].spatialLocator.k) for g in gone}
+        subBefore = {g: F.subtree(g) for g in gone}
+        if op == "remove":
+            objs[t].remove(objs[c])
+            F.detach(c)
+        elif op == "removeAll":
+            objs[t].removeAll()
+            for g in gone:
+                F.detach(g)
+        else:
+            objs[t].setChildren([objs[i] for i in items])
+            for c in kids:
+                F.detach(c)
+            for i in items:
+                F.attach(t, i)
+            ctx.check("on the copy: the children are exactly the given items in the given order",
+                      same_objs(list(objs[t]), [objs[i] for i in items]))
+        detached = all(objs[g].parent is None for g in gone)
+        if ctx.canary:
+            detached = AND(detached, NOT(bad))
+        ctx.check("on the copy: objects taken out have no parent", detached)
+        ctx.check("on the copy: objects taken out have a detached location (no grid) with the same indices",
+                  all(objs[g].spatialLocator.grid is None and
+                      (objs[g].spatialLocator.i, objs[g].spatialLocator.j, objs[g].spatialLocator.k) == locBefore[g]
+                      for g in gone))
+        ctx.check("on the copy: an object taken out keeps its own subtree",
+                  all(F.subtree(g) == subBefore[g] for g in gone))
+    check_forest(ctx, F, how + " then " + op)
+    for x in set([F.root(t), F.root(r)] + gone):
+        check_deep(ctx, objs[x], how + " then " + op)
 
 
 # ---------------------------------------------------------------------------
@@ -724,8 +903,8 @@ OPERAND_MAX = {"Block.add": 4, "Block.remove": 2, "Block.removeAll": 0, "Block.s
                "Assembly.insert": 2, "Assembly.remove": 0, "Assembly.removeAll": 0, "Assembly.setChildren": 15, "sort": 2}
 
 
-def check_typed_extras(ctx, F, tag):
-    a = F.objs[0]
+def check_typed_extras(ctx, F, tag, a=None):
+    a = F.objs[0] if a is None else a
     ctx.check(tag + ": the assembly's grid points at the assembly", a.spatialGrid.armiObject is a)
     ctx.check(tag + ": every block's location lives in the assembly's grid",
               all(b.spatialLocator.grid is a.spatialGrid for b in a))
@@ -967,7 +1146,7 @@ def copy_subtree_typed(ctx, how):
     r = int(rS)
     ctx.assume(r < len(objs))
     orig = objs[r]
-    cp = copy.deepcopy(orig) if how == "deepcopy" else pickle.loads(pickle.dumps(orig))
+    cp = copy_of(orig, how)
     ok = shape(cp) == shape(orig)
     if ctx.canary:
         ok = AND(ok, NOT(AND(D["nb"] == 2, D["t0"] == 1, D["m0"][0], D["m0"][1], D["m0"][2], rS == 2)))
@@ -981,11 +1160,140 @@ def copy_subtree_typed(ctx, how):
         if F.idx(y) in linked and r != F.idx(y):
             ctx.check("a dimension link inside the copied subtree points into the copy",
                       x.p.id.getLinkedComponent() is [z for z in x.parent if z.name == "fuel"][0])
-    check_forest(ctx, F, "original after " + how)
+    graft_copy(ctx, F, r, cp, how)      # queries (`in`, index, len, children) on the copy as on an original
+    check_forest(ctx, F, "original and copy after " + how)
     check_typed_extras(ctx, F, "original after " + how)
+    if not isinstance(cp, components.Component):
+        ctx.check("the copy's leaf components are those of the naive walk",
+                  same_objs(cp.getComponents(), [x for x in walk_pre(cp) if isinstance(x, components.Component)]))
+    check_deep(ctx, cp, "copy")
     if isinstance(cp, assemblies.Assembly):
         ctx.check("copied blocks live in the copied assembly's grid",
                   all(b.spatialLocator.grid is cp.spatialGrid for b in cp))
+
+
+COPY_TYPED_OPS = ("Block.add", "Block.remove", "Block.removeAll", "Assembly.add", "Assembly.insert", "Assembly.remove")
+
+
+@harness("C01", bounds="typed tree as in typed_edit_step (every state) x copied subtree (the assembly, or one of its "
+                       "blocks on its own; symbolic) x deepcopy / pickle round trip, then ONE operation on the COPY "
+                       "with symbolic operands: Block.add (fresh component accepted; every existing child refused) / "
+                       "Block.remove / Block.removeAll / Assembly.add (fresh block accepted; every existing block "
+                       "refused) / Assembly.insert (fresh block at a symbolic index; every existing block refused) / "
+                       "Assembly.remove", stubs=STUBS, max_paths=40000,
+         instances={"quick": [dict(op=o, how="deepcopy+pickle") for o in COPY_TYPED_OPS]})
+def copy_then_edit_typed(ctx, op, how):
+    D = declare_typed(ctx)
+    rS = ctx.int("copied", 0, 2)        # 0: the assembly; 1, 2: that block alone
+    biS = ctx.int("block", 0, 1)        # which block of the copy is the target (Assembly.insert: 1 = re-insert an existing block)
+    xS = ctx.int("operand", 0, 4)
+    for h in how.split("+"):            # the same state and operands (one path), once per way of copying, each on a
+        _copy_then_edit_typed(ctx, D, rS, biS, xS, op, h)      # tree of its own
+
+
+def _copy_then_edit_typed(ctx, D, rS, biS, xS, op, how):
+    F = build_typed(D)
+    objs = F.objs
+    nb = len(F.kids[0])
+    ctx.assume(rS <= (nb if op.startswith("Block.") else 0))      # assembly operations need the copied assembly
+    r = F.kids[0][int(rS) - 1] if int(rS) else 0
+    cp = copy_of(objs[r], how)
+    m = graft_copy(ctx, F, r, cp, how)
+    if m is None:
+        return
+    top = m[r]
+    a2 = objs[top] if r == 0 else None      # the copied assembly, if any
+    blocks2 = list(F.kids[top]) if r == 0 else [top]
+    rare = AND(D["nb"] == 2, D["t0"] == 1, D["m0"][0], NOT(D["m0"][1]), D["m0"][2], D["m1"][0], D["m1"][1], rS == 0)
+    gone = []
+    if op.startswith("Block."):
+        ctx.assume(biS < len(blocks2))
+        bi = blocks2[int(biS)]
+        b = objs[bi]
+        kids = list(F.kids[bi])
+        if op == "Block.add":
+            ctx.assume(xS <= len(kids))
+            x = int(xS)
+            if x == 0:
+                ci = fresh_comp(F, "bond")
+                b.add(objs[ci])
+                F.attach(bi, ci)
+                ctx.check("on the copy: the new component is last", b[len(b) - 1] is objs[ci])
+            else:
+                refused = False
+                try:
+                    b.add(objs[kids[x - 1]])
+                except RuntimeError:
+                    refused = True
+                ctx.check("on the copy: adding an existing child is refused", refused)
+            bad = AND(rare, biS == 1, xS == 1)
+        elif op == "Block.remove":
+            ctx.assume(xS < len(kids))
+            gone = [kids[int(xS)]]
+            b.remove(objs[gone[0]])
+            bad = AND(rare, biS == 0, xS == 1)
+        else:
+            ctx.assume(xS == 0)
+            gone = kids
+            b.removeAll()
+            bad = AND(rare, biS == 1)
+        for g in gone:
+            F.detach(g)
+    elif op == "Assembly.add":
+        ctx.assume(AND(biS == 0, xS <= nb))
+        x = int(xS)
+        if x == 0:
+            ni = fresh_block(F)
+            a2.add(objs[ni])
+            F.attach(top, ni)
+            ctx.check("on the copy: the new block is on top", a2[len(a2) - 1] is objs[ni])
+            ctx.check("on the copy: block locations are (0, 0, index) after add",
+                      all(bb.spatialLocator.k == k for k, bb in enumerate(a2)))
+        else:
+            refused = False
+            try:
+                a2.add(objs[blocks2[x - 1]])
+            except RuntimeError:
+                refused = True
+            ctx.check("on the copy: adding an existing block is refused", refused)
+        bad = AND(rare, xS == 0)
+    elif op == "Assembly.insert":
+        ctx.assume(xS <= nb - biS)          # fresh block: any index 0..nb; existing block number xS < nb
+        if int(biS) == 0:
+            ni = fresh_block(F)
+            a2.insert(xS, objs[ni])
+            F.attach(top, ni, int(xS))
+            ctx.check_eq("on the copy: the new block sits at the requested index", a2.index(objs[ni]), xS)
+        else:
+            refused = False
+            try:
+                a2.insert(0, objs[blocks2[int(xS)]])
+            except RuntimeError:
+                refused = True
+            ctx.check("on the copy: inserting an existing block is refused", refused)
+        bad = AND(rare, biS == 0, xS == 1)
+    else:
+        ctx.assume(AND(biS < nb, xS == 0))
+        gone = [blocks2[int(biS)]]
+        a2.remove(objs[gone[0]])
+        F.detach(gone[0])
+        bad = AND(rare, biS == 1)
+    okGone = all(objs[g].parent is None and objs[g].spatialLocator.grid is None for g in gone)
+    if ctx.canary:
+        okGone = AND(okGone, NOT(bad))
+    ctx.check("on the copy: objects taken out have no parent and a detached location", okGone)
+    tag = how + " then " + op
+    check_forest(ctx, F, tag)                  # all objects: the original tree, the edited copy, fresh objects
+    check_typed_extras(ctx, F, tag + " (original)")
+    if a2 is not None:
+        check_typed_extras(ctx, F, tag + " (copy)", a2)
+        ctx.check(tag + ": the copy's leaf components are those of the naive walk",
+                  same_objs(a2.getComponents(), [c for bb in a2 for c in bb]))
+    else:
+        ctx.check(tag + ": every component's material points back at it",
+                  all(c.material.parent is c for c in objs[top]))
+    for x in [0, top] + gone:
+        check_deep(ctx, objs[x], tag)
 
 
 def shape_rc(o):
@@ -1062,9 +1370,31 @@ def forest_from(root):
                        "occupied cell must be refused) / Core.removeAssembly of any assembly", stubs=STUBS,
          instances={"quick": [dict(op="add"), dict(op="removeAssembly")]})
 def core_edit_step(ctx, op):
+    _core_step(ctx, op, None)
+
+
+@harness("C01", bounds="mini reactor as in core_edit_step, copied as a whole (deepcopy / pickle round trip of the "
+                       "Reactor), then one operation on the COPIED core: Core.add of a fresh assembly at one of 4 cells "
+                       "(symbolic; an occupied cell must be refused) / Core.removeAssembly of any assembly; the "
+                       "original reactor must stay wired", stubs=STUBS,
+         instances={"quick": [dict(op=o, how=h) for o in ("add", "removeAssembly") for h in ("deepcopy", "pickle")]})
+def core_copy_then_edit(ctx, op, how):
+    _core_step(ctx, op, how)
+
+
+def _core_step(ctx, op, how):
     nS = ctx.int("nassemblies", 1, 2)
     xS = ctx.int("operand", 0, 3)
     r, core, assems = _build.mk_core([(0, 0), (1, 0)][:int(nS)], nblocks=1)
+    if how is not None:
+        r0, core0 = r, core
+        F0 = forest_from(r0)
+        r = copy_of(r0, how)
+        ctx.check(how + ": the copied reactor has the shape of the original", shape_rc(r) == shape_rc(r0))
+        core = r.core
+        ctx.check(how + ": reactor.core of the copy is the copy's first child, not the original core",
+                  core is not core0 and len(r) == 1 and core is r[0])
+        assems = list(core)
     F = forest_from(r)
     ci = F.idx(core)
     gone = []
@@ -1116,3 +1446,11 @@ def core_edit_step(ctx, op):
     ctx.check("the core's grid points at the core and locations of its children live in it",
               core.spatialGrid.armiObject is core and all(x.spatialLocator.grid is core.spatialGrid for x in core))
     ctx.check("reactor.core is the core", r.core is core and core.parent is r)
+    if how is not None:
+        check_forest(ctx, F0, "original after the edit of the copy")
+        ctx.check("no object is shared between the original and the edited copy",
+                  not ({id(x) for x in F0.objs} & {id(x) for x in F.objs}))
+        ctx.check("the original core's location table still lists exactly its children",
+                  len(core0.childrenByLocator) == len(core0) and
+                  all(core0.childrenByLocator.get(x.spatialLocator) is x for x in core0) and
+                  all(x.spatialLocator.grid is core0.spatialGrid for x in core0) and r0.core is core0)
